@@ -1,4 +1,185 @@
 import Ptn.C13.Model
-/-! Property theorems for C13. Only property theorems and non-vacuity examples live here. -/
+import Ptn.C13.Lemmas
+/-! Property theorems for C13 (symbolic Gaussian elimination is an exact factorisation).  Only
+property theorems and non-vacuity examples live here; helper lemmas are in `Sum`, `Views`,
+`EntryLemmas`, `RowSteps`, `ColSteps`, `Lemmas`.
+
+Conventions.  `gR X i k` is the entry `X[i][k]` of an operator matrix, `gE ρ A k l` the value of the
+entry `A[k][l]` of a symbolic matrix under the valuation `ρ : Nat → Rat` of the symbols,
+`sumN n f = f 0 + … + f (n-1)`.  Equality of two linear forms over ℚ under *every* rational valuation is
+equality of their coefficients, i.e. equality as polynomials (the field is infinite); the theorems are
+stated with `K = Rat` to stay in core Lean.  `Rect X w`: all rows of `X` have length `w`.
+`NESM M`: no entry of `M` uses the empty string (symbol `0`) as its symbol - `are_parallel_*` confuses
+that symbol with a number, see `sge_empty_symbol_counterexample`. -/
 namespace Ptn.C13
+
+/-! ### the paired primitive operations preserve `L · eval ρ A` / `eval ρ A · R`
+
+Each lemma is stated under exactly the conditions the Python code has tested immediately before the
+call; `RowRel n s s'` says: if `s` is well-shaped then so is `s'`, `R` and the number of rows of `L`
+are unchanged, `A` has not grown, and `(L · eval ρ A)[i][l]` is the same for all `ρ, i, l`
+(`ColRel` is the mirror image for `(eval ρ A · R)[k][j]`). -/
+
+/-- `row_add(matrix, Op_l, t, s, f)` (whether or not the compatibility guard lets it act): product kept,
+    only row `t` changes, and a reported zero row is zero under every valuation. -/
+theorem row_add_preserves (n : Nat) (st : St) (t s : Nat) (f : Rat) (ht : t < st.A.length)
+    (hs : s < st.A.length) (hts : t ≠ s) (h : WS n st) :
+    RowRel n st (st.rowAdd t s f).1 ∧
+    (∀ ρ k l, k ≠ t → gE ρ (st.rowAdd t s f).1.A k l = gE ρ st.A k l) ∧
+    ((st.rowAdd t s f).2 = true → ∀ ρ l, gE ρ (st.rowAdd t s f).1.A t l = 0) :=
+  let ⟨a, _, c, d⟩ := rowAdd_spec n st t s f ht hs hts h
+  ⟨a, c, d⟩
+
+theorem col_add_preserves (n : Nat) (st : St) (t s : Nat) (f : Rat) (ht : t < st.R.length)
+    (hs : s < st.R.length) (hts : t ≠ s) (h : WS n st) :
+    ColRel n st (st.colAdd t s f).1 ∧
+    (∀ ρ k l, l ≠ t → gE ρ (st.colAdd t s f).1.A k l = gE ρ st.A k l) ∧
+    ((st.colAdd t s f).2 = true → ∀ ρ k, gE ρ (st.colAdd t s f).1.A k t = 0) :=
+  let ⟨a, _, c, d⟩ := colAdd_spec n st t s f ht hs hts h
+  ⟨a, c, d⟩
+
+/-- The entry-wise rule of `_row_add` / `_col_add` never mixes: when it answers, the answer is the
+    single entry `target + f · source`. -/
+theorem add_entry_exact (f : Rat) (t s e : Entry) (ρ : Nat → Rat) (h : addEntry f t s = some e) :
+    e.eval ρ = t.eval ρ + f * s.eval ρ := addEntry_eval ρ h
+
+theorem row_swap_preserves (n : Nat) (s : St) (a b : Nat) (ha : a < s.A.length) (hb : b < s.A.length) :
+    RowRel n s (s.rowSwap a b) := rowRel_rowSwap n s a b ha hb
+
+theorem col_swap_preserves (n : Nat) (s : St) (a b : Nat) (ha : a < s.R.length) (hb : b < s.R.length) :
+    ColRel n s (s.colSwap a b) := colRel_colSwap n s a b ha hb
+
+/-- Deleting (in descending order) distinct rows that are zero, together with the matching columns of
+    `Op_l`, at least one row staying. -/
+theorem delete_zero_rows_preserves (n : Nat) (s : St) (zs : List Nat) (hnd : zs.Nodup)
+    (hlt : ∀ z, z ∈ zs → z < s.A.length) (hkeep : zs.length < s.A.length)
+    (hz : ∀ ρ z, z ∈ zs → ∀ l, gE ρ s.A z l = 0) : RowRel n s (s.delRows (sortDesc zs)) :=
+  rowRel_delRows_zero n s zs hnd hlt hkeep hz
+
+theorem delete_zero_cols_preserves (n : Nat) (s : St) (zs : List Nat) (hnd : zs.Nodup)
+    (hlt : ∀ z, z ∈ zs → z < s.R.length)
+    (hz : ∀ ρ z, z ∈ zs → ∀ k, gE ρ s.A k z = 0) : ColRel n s (s.delCols (sortDesc zs)) :=
+  colRel_delCols_zero n s zs hnd hlt hz
+
+/-- A non-zero answer of `are_parallel_row` is a true proportionality factor (no empty symbol). -/
+theorem are_parallel_row_sound (ρ : Nat → Rat) (A : EMat) (w i j : Nat) (μ : Rat) (hA : Rect A w)
+    (hn : NESM A) (hi : i < A.length) (hj : j < A.length)
+    (h : areParallelRow (A.getD i []) (A.getD j []) = μ) (hμ : μ ≠ 0) (l : Nat) :
+    gE ρ A j l = μ * gE ρ A i l := areParallelRow_sound ρ hA hn hi hj h hμ l
+
+theorem are_parallel_col_sound (ρ : Nat → Rat) (A : EMat) (w i j : Nat) (μ : Rat) (hA : Rect A w)
+    (hn : NESM A) (hi : i < w) (hj : j < w) (h : areParallelCol A i j = μ) (hμ : μ ≠ 0) (k : Nat) :
+    gE ρ A k j = μ * gE ρ A k i := areParallelCol_sound ρ hA hn hi hj h hμ k
+
+/-- `deparallelize_rows` / `deparallelize_cols`: merging parallel lines into the operator matrices. -/
+theorem deparallelize_rows_preserves (n : Nat) (s : St) (hnes : NESM s.A) :
+    RowRel n s (deparallelizeRows s) := rowRel_deparallelizeRows n s hnes
+
+theorem deparallelize_cols_preserves (n : Nat) (s : St) (hnes : NESM s.A) :
+    ColRel n s (deparallelizeCols s) := colRel_deparallelizeCols n s hnes
+
+/-- `row_elimination` / `column_elimination` (pivot search, additions, deletions, index shifts). -/
+theorem row_elimination_preserves (n : Nat) (s : St) : RowRel n s (rowElimination s) :=
+  rowRel_rowElimination n s
+
+theorem column_elimination_preserves (n : Nat) (s : St) : ColRel n s (columnElimination s) :=
+  colRel_columnElimination n s
+
+/-! ### the property -/
+
+/-- **Exactness.**  For every rectangular `M` (`m ≥ 1` rows of length `n`, symbols non-empty): if
+    `gaussian_elimination` returns `(L, M', R)` then `L` is `m × p`, `M'` is `p × q`, `R` is `q × n`
+    with `1 ≤ p ≤ m`, `q ≤ n`, and `(L · eval ρ M' · R)[i][j] = eval ρ M[i][j]` for every valuation
+    and all `i < m`, `j < n`. -/
+theorem sge_exact (M : EMat) (n : Nat) (hpos : 0 < M.length) (hrect : Rect M n) (hnes : NESM M)
+    (L : RMat) (A : EMat) (R : RMat) (h : gaussianElimination M = .ok L A R) :
+    (L.length = M.length ∧ Rect L A.length ∧ Rect A R.length ∧ Rect R n) ∧
+    (0 < A.length ∧ A.length ≤ M.length ∧ R.length ≤ n) ∧
+    ∀ (ρ : Nat → Rat) (i j : Nat), i < M.length → j < n →
+      sumN A.length (fun k => sumN R.length (fun l => gR L i k * gE ρ A k l * gR R l j))
+        = gE ρ M i j := by
+  have hg := good_gaussSt M n hpos hrect hnes
+  unfold gaussianElimination at h
+  simp only at h
+  split at h
+  · simp only [Outcome.ok.injEq] at h
+    obtain ⟨rfl, rfl, rfl⟩ := h
+    refine ⟨⟨hg.Llen, hg.ws.Lrect, hg.ws.Arect, hg.ws.Rrect⟩,
+      ⟨hg.ws.Apos, hg.rows_le, hg.cols_le⟩, ?_⟩
+    intro ρ i j hi hj
+    have := hg.exact ρ i j
+    rw [initF_in_range M n ρ i j hi hj] at this
+    exact this
+  · simp at h
+  · simp at h
+
+/-- Exactness as an equation between matrices: `L · eval ρ M' · R = eval ρ M`. -/
+theorem sge_exact_matrix (M : EMat) (n : Nat) (hpos : 0 < M.length) (hrect : Rect M n) (hnes : NESM M)
+    (L : RMat) (A : EMat) (R : RMat) (h : gaussianElimination M = .ok L A R) (ρ : Nat → Rat) :
+    matMul (matMul L (evalM ρ A) R.length) R n = evalM ρ M := by
+  obtain ⟨⟨h1, h2, h3, h4⟩, _, hex⟩ := sge_exact M n hpos hrect hnes L A R h
+  apply rmat_ext (m := M.length) (n := n)
+  · simp [matMul, h1]
+  · simp [evalM]
+  · exact rect_matMul _ _ _
+  · exact rect_evalM ρ hrect
+  · intro i j hi hj
+    rw [gR_matMul _ _ _ _ _ (by simp [matMul, h1]; exact hi) hj, gR_evalM, ← hex ρ i j hi hj]
+    have hlenA : (evalM ρ A).length = A.length := by simp [evalM]
+    have e : ∀ l, l < R.length →
+        gR (matMul L (evalM ρ A) R.length) i l * gR R l j
+          = sumN A.length (fun k => gR L i k * gE ρ A k l * gR R l j) := by
+      intro l hl
+      rw [gR_matMul _ _ _ _ _ (by rw [h1]; exact hi) hl, hlenA, ← sumN_mul_right]
+      apply sumN_congr
+      intro k _
+      rw [gR_evalM]
+    rw [sumN_congr e, sumN_comm]
+
+/-- Non-vacuity of `sge_exact`: a rank-1 numeric matrix is reduced to `1 × 1`. -/
+example : gaussianElimination [[.num 1, .num 2], [.num 2, .num 4]]
+    = .ok [[1], [2]] [[.num 1]] [[1, 2]] := by decide +kernel
+
+example : Rect [[Entry.num 1, Entry.num 2], [Entry.num 2, Entry.num 4]] 2
+    ∧ NESM [[Entry.num 1, Entry.num 2], [Entry.num 2, Entry.num 4]] := by
+  refine ⟨?_, ?_⟩
+  · intro r hr; simp at hr; rcases hr with rfl | rfl <;> rfl
+  · intro r hr e he
+    simp at hr
+    rcases hr with rfl | rfl <;> simp at he <;> rcases he with rfl | rfl <;> trivial
+
+/-- Non-vacuity with symbols: a symbolic pivot eliminates a same-symbol entry below it. -/
+example : gaussianElimination
+    [[.num 1, .sym 1 1, .num 0], [.num 2, .num 4, .sym 1 2], [.num 3, .sym 1 1, .sym 1 2]]
+    = .ok [[1, 0, 0], [0, 1, 0], [3, 0, 1]]
+        [[.num 1, .sym 1 1, .num 0], [.num 2, .num 4, .sym 1 2], [.num 0, .sym (-2) 1, .sym 1 2]]
+        [[1, 0, 0], [0, 1, 0], [0, 0, 1]] := by decide +kernel
+
+/-- **No mixing** (by the type of the model): every entry of the reduced matrix is a rational or a
+    rational multiple of one symbol; its value is that monomial. -/
+theorem sge_no_mixing (M : EMat) (L : RMat) (A : EMat) (R : RMat)
+    (_h : gaussianElimination M = .ok L A R) :
+    ∀ r, r ∈ A → ∀ e, e ∈ r →
+      (∃ q, e = Entry.num q ∧ ∀ ρ, e.eval ρ = q) ∨ (∃ q s, e = Entry.sym q s ∧ ∀ ρ, e.eval ρ = q * ρ s) := by
+  intro r _ e _
+  cases e with
+  | num q => exact Or.inl ⟨q, rfl, fun _ => rfl⟩
+  | sym q s => exact Or.inr ⟨q, s, rfl, fun _ => rfl⟩
+
+/-! ### what the code does outside the stated input domain (witnesses, replayed on the real code) -/
+
+/-- The hypothesis `NESM` of `sge_exact` cannot be dropped: with the empty string as a symbol the rows
+    `[1]` and `[2·'']` are declared parallel and the product is `[[1],[2]] ≠ [[1],[2·'']]`. -/
+theorem sge_empty_symbol_counterexample :
+    gaussianElimination [[.num 1], [.sym 2 0]] = .ok [[1], [2]] [[.num 1]] [[1]] ∧
+    ∃ ρ : Nat → Rat,
+      sumN 1 (fun k => sumN 1 (fun l => gR [[1], [2]] 1 k * gE ρ [[.num 1]] k l * gR [[1]] l 0))
+        ≠ gE ρ [[.num 1], [.sym 2 0]] 1 0 := by
+  refine ⟨by decide +kernel, fun _ => 0, ?_⟩
+  decide +kernel
+
+/-- A symbolic entry with coefficient `0` as pivot makes the code raise `ZeroDivisionError`. -/
+theorem sge_zero_coefficient_raises :
+    gaussianElimination [[.sym 0 1], [.sym 1 1]] = .zeroDiv := by decide +kernel
+
 end Ptn.C13
